@@ -110,9 +110,13 @@ def validate_traces(rep, traces, scripts, pid, flags_of_interest, tag):
         for f in sorted(v.flags):
             counts[f] = counts.get(f, 0) + 1
             if f in flags_of_interest:
-                rep.violation({"check": "trace", "flag": f, "clause": M.FLAG_INV.get(f, f)},
-                              {"campaign": tag, "conf": tr["conf"], "events": tr["ev"],
-                               "script": scripts[k] if scripts else None, "all_flags": sorted(v.flags)})
+                sig = {"check": "trace", "flag": f, "clause": M.FLAG_INV.get(f, f)}
+                det = {"campaign": tag, "conf": tr["conf"], "events": tr["ev"], "all_flags": sorted(v.flags)}
+                if scripts and isinstance(scripts[k], dict) and "scheduler" in scripts[k]:
+                    det["run"] = scripts[k]            # a real-scheduler run: (scheduler, seed, n_workers, ...)
+                else:
+                    det["script"] = scripts[k] if scripts else None
+                rep.violation(sig, det)
     if traces:
         rep.sample({"campaign": tag, "trace_events": [json.dumps(e) for e in traces[len(traces) // 2]["ev"][:40]]})
     return counts
